@@ -7,24 +7,14 @@ NOTE = ("Trusted base: Coq 8.16.1 kernel (full .vo build; no axioms declared, Pr
         "(gen/*.py + `mfi consts`, regenerated from /repo on every run); extraction via ExtrOcamlBasic only + driver.ml; the Rust "
         "correspondence harness (path-dependency on /repo, on-chain profile flags). The theorem is about the hand-written Gallina "
         "model; the correspondence run (real code vs extracted model on the same cases) is what ties it to /repo.")
-CLAIMED = {
-    "C15": {
-        "text": ("Kernel-checked theorems over the pause state machine for every operation sequence of any length "
-                 "(induction + invariant), tied to the real PanicState methods by differential execution on generated "
-                 "and boundary-directed schedules; property oracles evaluated on the implementation trace."),
-        "design_ref": "DESIGN.md §7 C15",
-        "technique": "Coq proof by invariant over op lists + model/implementation correspondence (extracted model vs real PanicState)",
-    },
-}
-CLAIMED["C18"] = {
-    "text": ("Kernel-checked theorems: for every configuration accepted by validate_seven_point (any number of points) and every "
-             "utilisation bit pattern the base rate is defined, lies in [zero,hundred], is monotone and interpolates the configured "
-             "points; borrow >= base, lend <= base on [0,1]; calc_interest_rate total for bounded non-negative fees; legacy curve "
-             "defined/bounded/monotone on [0,1]. Tied to the real InterestRateConfig::validate / InterestRateCalc by differential "
-             "execution with utilisations at every breakpoint +-2 ulp."),
-    "design_ref": "DESIGN.md §7 C18",
-    "technique": "Coq proof by induction over the point list + model/implementation correspondence (extracted model vs real calc_interest_rate)",
-}
+import importlib, sys
+sys.path.insert(0, os.path.join(VERIF, "py"))
+CLAIMED = {}
+for _f in sorted(os.listdir(os.path.join(VERIF, "py", "props"))):
+    if _f.startswith("c") and _f.endswith(".py"):
+        _m = importlib.import_module("props." + _f[:-3])
+        if getattr(_m, "MANIFEST", None):
+            CLAIMED[_m.ID] = _m.MANIFEST
 ALL = [f"C{i:02d}" for i in range(1, 21)]
 PENDING_REASON = "not claimed yet: model/theorems for this property are still being built (see DESIGN.md status table)"
 
